@@ -4,6 +4,14 @@ size_t g_request;                      /* witness: the number of slots asked for
 unsigned g_starts, g_stops, g_recycles, g_allocs; node_address g_stop_arg, g_recycle_at; size_t g_recycle_n;
 node_address g_alloc_result;
 int g_next, g_row_result, g_row_current;
+node_address g_refiled;               /* ghost: the hole startTrackingHole was last called on (its pointer slots were overwritten) */
+/* ASSUMED list shape, at the point where a link is read from the arena: the successor in the huge list is 0 or another huge hole, disjoint from its predecessor -
+ * unless the predecessor has just been re-filed: then its links are whatever startTrackingHole wrote */
+/* holes are disjoint: in particular a hole of the huge list does not overlap the medium-list head that may serve this request */
+#define MED_HEAD(m, n)  ((n) < LargeHoleSize ? (m)->medium_hole_list[n] : 0)
+#define AWAY_FROM(m, x, y) ((y) == 0 || (size_t)(x) + TAGSIZE(m, x) <= (size_t)(y) || (size_t)(x) >= (size_t)(y) + TAGSIZE(m, y))
+#define VERIF_LINK_OF(curr, next) __CPROVER_assume((size_t)(curr) == g_refiled || ((next) >= 0 && ((next) == 0 || (HOLE_OK(self, next) && TAGSIZE(self, next) >= LargeHoleSize && AWAY_FROM(self, next, MED_HEAD(self, *numSlots)) && \
+    ((size_t)(next) + TAGSIZE(self, next) <= (size_t)(curr) || (size_t)(next) >= (size_t)(curr) + TAGSIZE(self, curr))))))
 
 #define MSBINT ((int)0x80000000)
 #define TAGGED(m, k)   (((m)->data[k] & MSBINT) != 0)
@@ -32,9 +40,11 @@ __CPROVER_ensures(__CPROVER_return_value == g_row_result && *current == g_row_cu
 __CPROVER_ensures(g_row_result != 0 || (g_row_current >= 1 && HOLE_OK(self, g_row_current) && TAGSIZE(self, g_row_current) == (size_t)size));
 void array_plus_grid__startTrackingHole(struct array_plus_grid *self, node_address h)
 __CPROVER_requires(self != NULL) REQUIRES(a_hole_is_filed, HOLE_OK(self, h))
-__CPROVER_assigns(g_starts, self->huge_holes, self->grid_bottom, self->grid_top, self->grid_current, __CPROVER_object_upto(self->medium_hole_list, sizeof(self->medium_hole_list)))
-__CPROVER_assigns(self->data[h + 1], self->data[h + 2], self->data[h + 3])
-__CPROVER_ensures(g_starts == __CPROVER_old(g_starts) + 1)
+/* in requestChunk only holes of the huge list are re-filed; a large hole never enters a medium list (hence no medium list in the frame) */
+REQUIRES(only_large_holes_are_refiled_here, TAGSIZE(self, h) >= LargeHoleSize)
+__CPROVER_assigns(g_starts, g_refiled, self->huge_holes, self->grid_bottom, self->grid_top, self->grid_current)
+__CPROVER_assigns(self->data[h + 1], self->data[h + 2], self->data[h + 3], self->data[h + 4])
+__CPROVER_ensures(g_starts == __CPROVER_old(g_starts) + 1 && g_refiled == h)
 /* classification with the maximum request the manager knows NOW (array_grid.cc startTrackingHole: huge iff larger than max_request) */
 __CPROVER_ensures((TAGSIZE(self, h) >= LargeHoleSize && TAGSIZE(self, h) > self->max_request) ? (size_t)self->huge_holes == h : self->huge_holes == __CPROVER_old(self->huge_holes))
 /* ASSUMED: filing keeps the heads what they are */
@@ -57,12 +67,13 @@ node_address array_plus_grid__requestChunk(struct array_plus_grid *self, size_t 
 AG_REQ(self)
 __CPROVER_requires(__CPROVER_is_fresh(numSlots, sizeof(size_t)) && 1 <= *numSlots && *numSlots < (1ul << 28) && self->last_used_slot < (1ul << 30) && self->max_request < (1ul << 28))
 WITNESS(array_plus_grid__requestChunk, g_request == *numSlots)
-__CPROVER_requires(g_request == *numSlots)
+__CPROVER_requires(g_request == *numSlots && g_refiled == 0)
 /* ASSUMED shape of the hole index at entry */
 __CPROVER_requires(self->huge_holes >= 0 && HOLE_OR_0(self, self->huge_holes) && (self->huge_holes == 0 || (TAGSIZE(self, self->huge_holes) >= LargeHoleSize && TAGSIZE(self, self->huge_holes) > self->max_request)))
 __CPROVER_requires(*numSlots >= LargeHoleSize || (self->medium_hole_list[*numSlots] >= 0 && (self->medium_hole_list[*numSlots] == 0 || (HOLE_OK(self, self->medium_hole_list[*numSlots]) && TAGSIZE(self, self->medium_hole_list[*numSlots]) == *numSlots))))
+__CPROVER_requires(self->huge_holes == 0 || AWAY_FROM(self, self->huge_holes, MED_HEAD(self, *numSlots)))
 __CPROVER_requires(g_starts < 1000000 && g_stops < 1000000 && g_recycles < 1000000 && g_allocs < 1000000)
-__CPROVER_assigns(*numSlots, self->max_request, self->huge_holes, self->grid_bottom, self->grid_top, self->grid_current, __CPROVER_object_upto(self->medium_hole_list, sizeof(self->medium_hole_list)),
+__CPROVER_assigns(g_refiled, *numSlots, self->max_request, self->huge_holes, self->grid_bottom, self->grid_top, self->grid_current, __CPROVER_object_upto(self->medium_hole_list, sizeof(self->medium_hole_list)),
                   g_starts, g_stops, g_stop_arg, g_recycles, g_recycle_at, g_recycle_n, g_allocs)
 __CPROVER_assigns(__CPROVER_object_whole(self->data))
 ENSURES(the_manager_remembers_the_largest_request, self->max_request >= g_request && self->max_request >= __CPROVER_old(self->max_request))
